@@ -12,6 +12,8 @@ pub mod c08;
 pub mod c09;
 pub mod c10;
 #[cfg(not(feature = "inproc"))]
+pub mod c11;
+#[cfg(not(feature = "inproc"))]
 pub mod c12;
 pub mod c13;
 pub mod c14;
@@ -54,6 +56,8 @@ table! {
     "C09" => c09::C09,
     "C10" => c10::C10,
     #[cfg(not(feature = "inproc"))]
+    "C11" => c11::C11,
+    #[cfg(not(feature = "inproc"))]
     "C12" => c12::C12,
     "C13" => c13::C13,
     "C14" => c14::C14,
@@ -71,6 +75,8 @@ table! {
 pub fn helper(args: &[String]) -> i32 {
     match args.first().map(|s| s.as_str()) {
         Some("c08client") => c08::helper_main(&args[1..]),
+        #[cfg(not(feature = "inproc"))]
+        Some("fdlist") => c11::helper_fdlist(),
         _ => {
             eprintln!("unknown helper {:?}", args);
             2
